@@ -507,8 +507,16 @@ func rewriteCalls(n ast.Node) {
 			*call = *rtCall("RLock", addr(sel.X), site(call.Pos(), "RLock"))
 		case recv == "sync.RWMutex" && m == "RUnlock":
 			*call = *rtCall("RUnlock", addr(sel.X))
-		case isLocker && (m == "TryLock" || m == "TryRLock" || m == "RLocker"):
+		case (recv == "sync.Mutex" || recv == "sync.RWMutex") && m == "TryLock":
+			*call = *rtCall("TryLock", addr(sel.X), site(call.Pos(), "TryLock"))
+		case isLocker && (m == "TryRLock" || m == "RLocker"):
 			die("unsupported %s.%s at %s", recv, m, fset.Position(call.Pos()))
+		case strings.HasPrefix(recv, "sync/atomic.") && (m == "Load" || m == "Store" || m == "Swap" || m == "CompareAndSwap" || m == "Add"):
+			kind := 1
+			if m == "Load" {
+				kind = 0
+			}
+			sel.X = rtCall("AtomicPtr", addr(sel.X), intLit(kind), site(call.Pos(), "atomic."+m))
 		case recv == "sync.Cond" && m == "Wait":
 			*call = *rtCall("CondWait", addr(sel.X), site(call.Pos(), "CondWait"))
 		case recv == "sync.Cond" && m == "Broadcast":
